@@ -128,6 +128,9 @@ BindCons == {C0("id"), C0("expr"), C0("bid"), C0("bdef"), CN("barr", 0), CN("bar
 AsgPat == {C0("id"), C0("expr"), CO("asg", "="), CO("asg", "+="), CN("arr", 1), CN("arr", 2), CON("arr", "h1", 1), CN("obj", 1), CN("obj", 2), C0("psh"), CO("pkv", "pr"), C0("pcomp"),
            C0("spread"), C0("pspread"), C0("grp"), C0("dot"), C0("idx"), CO("forof", "e"), CO("forin", "e"), C0("empty"),
            CO("fn", ""), CO("fn", "async"), CN("ps", 0), CN("blk", 0), CN("cls", 0)}
+\* the left side of for-in / for-of when it is an expression (LeftHandSideExpression with lookahead restrictions, or a pattern)
+ForLhs == {C0("id"), C0("empty"), CO("forin", "e"), CO("forof", "e"), C0("dot"), C0("idx"), C0("grp"), CO("fn", ""), CO("fn", "async"), CN("cls", 0), CN("ps", 0), CN("blk", 0),
+           CN("arr", 1), CN("obj", 1), C0("psh"), CN("call", 0), CN("newa", 0), CO("un", "await")}
 \* statements inside class bodies; private names
 ClassBody == {C0("id"), C0("expr"), CN("ps", 0), CN("blk", 0), CN("blk", 1), C0("ctor"), C0("sblock"), CN("pfield", 0), CO("pmeth2", ""), CO("meth", ""), CO("smeth", "async"),
               CON("cdecl", "", 2), CON("clsn", "", 2), C0("pdot"), C0("opdot"), C0("dot"), CO("asg", "="), C0("ret"), C0("nt"), CO("un", "await"), C0("ret0")}
@@ -156,7 +159,7 @@ ClassCons == {C0("id"), C0("expr"), CN("ps", 0), CN("ps", 1), C0("bid"), CN("blk
              \cup {CO("meth", k) : k \in MethKinds} \cup {CO("smeth", k) : k \in {"", "set"}} \cup {CO("pmeth2", k) : k \in {"", "get"}}
              \cup {CO("cmeth", k) : k \in {"", "async*"}}
 
-AllCons == ExprFull \cup ExprReduced \cup ExprReduced2 \cup ExprTiny \cup LeafCons \cup NegCons \cup StmtCons \cup StmtRed \cup AsiCons \cup BindCons \cup BindDeep \cup ForIn \cup ForInPat \cup ArrowPat \cup AsgPat \cup ClassBody \cup ClassAsi \cup ClassCons
+AllCons == ExprFull \cup ExprReduced \cup ExprReduced2 \cup ExprTiny \cup LeafCons \cup NegCons \cup StmtCons \cup StmtRed \cup AsiCons \cup BindCons \cup BindDeep \cup ForIn \cup ForInPat \cup ArrowPat \cup AsgPat \cup ForLhs \cup ClassBody \cup ClassAsi \cup ClassCons
 \* configurations for -simulate: everything at once
 SimCons == AllCons \ {c \in AllCons : c.k \in {"badasg", "dup"}}
 
@@ -702,7 +705,10 @@ Brackets == {"(", ")", "[", "]", "{", "}", "(:exp", "):exp", "(:mix", "):mix"}
 RECURSIVE TplDepth(_, _)
 TplDepth(toks, i) == IF i = 0 THEN 0
                      ELSE TplDepth(toks, i - 1) + (IF toks[i] = "`h${" THEN 1 ELSE IF toks[i] = "}t`" THEN -1 ELSE 0)
-Dels(toks) == {i \in 1..Len(toks) : toks[i] \in Brackets /\ TplDepth(toks, i) = 0}
+\* a division sign can become the start of a regular expression literal once a bracket before it is gone, and that literal can
+\* swallow later brackets (the program may then be well-formed again): programs with a division operator are not mutated
+NoDiv(toks) == \A i \in 1..Len(toks) : toks[i] \notin {"/", "/="}
+Dels(toks) == IF NoDiv(toks) THEN {i \in 1..Len(toks) : toks[i] \in Brackets /\ TplDepth(toks, i) = 0} ELSE {}
 \* one opening bracket put before / one closing bracket put after a top-level statement (ends: token counts of the statements)
 RECURSIVE Starts(_, _, _)
 Starts(lens, i, acc) == IF i > Len(lens) THEN <<>> ELSE <<acc>> \o Starts(lens, i + 1, acc + lens[i])
@@ -825,7 +831,7 @@ Emit(st, nn) ==
                                         canon |-> (IF bad THEN <<>> ELSE Cn(FALSE)),
                                         canonw |-> (IF bad \/ ~\E i \in DOMAIN st : Has(st[i], {"while"}) THEN <<>> ELSE Cn(TRUE)),
                                         del |-> (IF bad THEN {} ELSE Dels(toks)),
-                                        ins |-> (IF bad THEN {} ELSE Ins(lens, off)),
+                                        ins |-> (IF bad \/ ~NoDiv(toks) THEN {} ELSE Ins(lens, off)),
                                         ops |-> Flat([i \in DOMAIN st |-> OpsOf(st[i])]),
                                         pairs |-> Flat([i \in DOMAIN st |-> PairsOf(st[i])]),
                                         ar |-> Flat([i \in DOMAIN st |-> ArOf(st[i])]),
